@@ -544,8 +544,156 @@ func runC18(rep *Report, r *Rng, tier string) {
 			}
 		}
 	}
+	runParallelWriters(rep, tier)
 	reportRaces(rep, "C18", last)
 	rep.OracleCalls = o.n
+}
+
+// runParallelWriters: several writer objects of one process fed concurrently (each by its own goroutines). Each writer
+// has its own lock; nothing they share may make one writer's rows depend on another's. Every row carries a unique tag
+// (a value new to its writer), so a row that is lost, duplicated or mixed up is not found exactly once under its tag.
+func runParallelWriters(rep *Report, tier string) {
+	per := 1500
+	if tier == "thorough" {
+		per = 12000
+	}
+	type wr struct {
+		kind string
+		add  func(map[string]string) (uint32, error)
+		fin  func() error
+		path string
+		tags [][]string // per goroutine
+		ids  [][]uint32
+	}
+	var ws []*wr
+	var cleanup []func()
+	for k, kind := range []string{"mem", "mem", "big"} {
+		path := scratch(fmt.Sprintf("c18-par-%d.updog", k))
+		os.Remove(path)
+		w := &wr{kind: kind, path: path, tags: make([][]string, 3), ids: make([][]uint32, 3)}
+		if kind == "mem" {
+			iw := updog.NewIndexWriter(path)
+			w.add, w.fin = iw.AddRow, iw.Flush
+		} else {
+			db, err := bbolt.Open(path, 0644, boltOpts)
+			if err != nil {
+				infra("bolt: %v", err)
+			}
+			tdb, err := bbolt.Open(path+".tmp", 0600, boltOpts)
+			if err != nil {
+				infra("bolt: %v", err)
+			}
+			bw, err := updog.NewBigIndexWriter(db, tdb)
+			if err != nil {
+				infra("big writer: %v", err)
+			}
+			w.add, w.fin = bw.AddRow, bw.Flush
+			cleanup = append(cleanup, func() { bw.Close(); tdb.Close(); db.Close(); os.Remove(path + ".tmp") })
+		}
+		ws = append(ws, w)
+		p := path
+		cleanup = append(cleanup, func() { os.Remove(p) })
+	}
+	res := watchdog(240*time.Second, func() string {
+		var wg sync.WaitGroup
+		var firstErr atomic.Value
+		for wi, w := range ws {
+			for g := 0; g < 3; g++ {
+				wg.Add(1)
+				go func(wi, g int, w *wr) {
+					defer wg.Done()
+					defer func() {
+						if p := recover(); p != nil {
+							firstErr.Store(fmt.Sprintf("panic in AddRow: %v", p))
+						}
+					}()
+					for k := 0; k < per; k++ {
+						tag := fmt.Sprintf("w%d-g%d-row-%06d", wi, g, k)
+						id, err := w.add(map[string]string{"tag": tag, "grp": fmt.Sprint(k % 7), "who": fmt.Sprintf("w%d", wi)})
+						if err != nil {
+							firstErr.Store("AddRow: " + err.Error())
+							return
+						}
+						w.tags[g] = append(w.tags[g], tag)
+						w.ids[g] = append(w.ids[g], id)
+					}
+				}(wi, g, w)
+			}
+		}
+		wg.Wait()
+		if e := firstErr.Load(); e != nil {
+			return "err: " + e.(string)
+		}
+		for _, w := range ws {
+			if err := w.fin(); err != nil {
+				return "flush-err: " + err.Error()
+			}
+		}
+		return "ok"
+	})
+	defer func() {
+		for i := len(cleanup) - 1; i >= 0; i-- {
+			if res == "ok" || !strings.HasPrefix(res, "err: panic") {
+				cleanup[i]()
+			}
+		}
+	}()
+	rep.Eval("parallel-writers", true)
+	rep.Count("parallel-writer-runs")
+	c := map[string]any{"writers": "mem,mem,big", "goroutines_each": 3, "rows_each": per}
+	if res != "ok" {
+		rep.Violate(Violation{Kind: "schedule", Signature: "C18:" + strings.SplitN(res, ":", 2)[0], What: "three writers fed concurrently: " + res, Expected: "ok", Actual: trunc(res, 400), Case: c})
+		return
+	}
+	for wi, w := range ws {
+		if w.kind == "big" { // the big writer's databases belong to the caller: close them before reading the file
+			cleanup[len(cleanup)-2]()
+			cleanup[len(cleanup)-2] = func() {}
+		}
+		n := 3 * per
+		seen := make([]bool, n)
+		bad := ""
+		for g := range w.ids {
+			for k, id := range w.ids[g] {
+				if int(id) >= n || seen[id] {
+					bad = fmt.Sprintf("id %d returned twice or out of range 0..%d", id, n-1)
+				} else {
+					seen[id] = true
+				}
+				if k > 0 && id <= w.ids[g][k-1] {
+					bad = "a goroutine got a smaller id for a later call"
+				}
+			}
+		}
+		if bad != "" {
+			rep.Violate(Violation{Kind: "schedule", Signature: "C18:ids-not-a-permutation", What: fmt.Sprintf("writer %d (%s) while other writers ran: %s", wi, w.kind, bad), Expected: "ids exactly 0..n-1", Actual: bad, Case: c})
+			continue
+		}
+		idx, _, err := openIdx(w.path, false, -1)
+		if err != nil {
+			rep.Violate(Violation{Kind: "schedule", Signature: "C18:index-differs-from-model", What: fmt.Sprintf("writer %d (%s): the flushed index does not open: %v", wi, w.kind, err), Expected: "opens", Actual: err.Error(), Case: c})
+			continue
+		}
+		wrong, first := 0, ""
+		for g := range w.tags {
+			for k, tag := range w.tags[g] {
+				q := &updog.Query{Expr: &updog.ExprAnd{Exprs: []updog.Expression{&updog.ExprEqual{Column: "tag", Value: tag}, &updog.ExprEqual{Column: "grp", Value: fmt.Sprint(k % 7)}, &updog.ExprEqual{Column: "who", Value: fmt.Sprintf("w%d", wi)}}}}
+				got := safeExecute(idx, q)
+				if got != "ok 1" {
+					wrong++
+					if first == "" {
+						first = fmt.Sprintf("tag %s (id %d) with its own values is found as %q", tag, w.ids[g][k], got)
+					}
+				}
+			}
+		}
+		total := safeExecute(idx, &updog.Query{Expr: &updog.ExprEqual{Column: "who", Value: fmt.Sprintf("w%d", wi)}})
+		idx.Close()
+		rep.CountN("parallel-writer-rows-checked", n)
+		if wrong > 0 || total != fmt.Sprintf("ok %d", n) {
+			rep.Violate(Violation{Kind: "schedule", Signature: "C18:index-differs-from-model", What: fmt.Sprintf("writer %d (%s) fed by 3 goroutines while two other writers ran: %d of %d rows are not in the index exactly once with their values (total %s); first: %s", wi, w.kind, wrong, n, total, first), Expected: "every row exactly once", Actual: first, Case: c})
+		}
+	}
 }
 
 func init() {
